@@ -32,7 +32,8 @@ def gen_inlines(r, depth=0, plain=False, in_link=False, in_em=False, in_strong=F
                                           "<aside>", "<area>", "<audio src=\"x\">", "<i>", "<?x y?>", "<em-x>"])))
         elif k < 0.95:
             # (an escaped delimiter inside emphasis is the known finding C04/escaped-star-closes-emphasis)
-            out.append(("escape", r.choice(list("[]<>#!" if (in_em or in_strong) else "*_[]<>#!"))))
+            # (an escaped backslash in front of the bracket that closes link text is the known finding C04/escaped-backslash-before-closing-bracket)
+            out.append(("escape", r.choice(list(("[]<>#!" if (in_em or in_strong) else "*_[]<>#!") + ("" if in_link else "\\")))))
         else:
             out.append(("text", r.choice(WORDS)))
     # emphasis/strong content starts and ends with a word, so that no two delimiter runs touch
@@ -41,6 +42,8 @@ def gen_inlines(r, depth=0, plain=False, in_link=False, in_em=False, in_strong=F
             out.insert(0, ("text", r.choice(WORDS)))
         if out[-1][0] != "text":
             out.append(("text", r.choice(WORDS)))
+        if r.random() < 0.12 and not in_link:
+            out.append(("escape", "\\"))      # ... or with an escaped backslash: the closing run follows the pair "\\\\" directly
     # breaks only between two text-ish items
     if breaks and not plain and len(out) > 1 and r.random() < 0.3:
         i = r.randint(1, len(out) - 1)
@@ -71,7 +74,7 @@ def gen_blocks(r, depth=0, plain=False, n=None, in_item=False):
         elif k < 0.46:
             b = ("heading", r.randint(1, 6), gen_inlines(r, 0, plain, breaks=False))
         elif k < 0.54:
-            body = "".join(r.choice(["code line\n", "  indented\n", "*not em*\n", "<b>&amp;\n", "\\n\n", "# no\n", "- no\n", "> no\n"]) for _ in range(r.randint(1, 3)))
+            body = "".join(r.choice(["code line\n", "  indented\n", "*not em*\n", "<b>&amp;\n", "\\n\n", "# no\n", "- no\n", "> no\n", "\n", "code  \n"]) for _ in range(r.choice([0, 1, 1, 2, 2, 3])))     # (also an empty block)
             b = ("fenced", r.choice(["```", "~~~", "````"]), r.choice(["", "", "python", "c"]), body)
         elif k < 0.58:
             b = ("hr",)
